@@ -20,6 +20,7 @@ Interpretation decisions:
     of paths changes exactly by the size difference at p.
 """
 import json
+import os
 import vlib
 from checks import jq_shared as J
 
@@ -32,7 +33,8 @@ def sig_of(e, events=None, k=None):
 
 def run(ctx):
     q = ctx.quick
-    vlib.model_check(ctx, "MC_JqCore.tla", "MC_JqCore_quick.cfg" if q else "MC_JqCore_thorough.cfg", workers=6, timeout=1500)
+    if not os.environ.get("VERIF_DEV_SKIP_MODEL"):   # development-only knob (mutation testing)
+        vlib.model_check(ctx, "MC_JqCore.tla", "MC_JqCore_quick.cfg" if q else "MC_JqCore_thorough.cfg", workers=6, timeout=1500)
     b = vlib.harness_bin("c25")
     cli = vlib.cli_bin()
     tp = ctx.path("trace.ndjson")
